@@ -142,6 +142,10 @@ func genSuggestUser(r *RNG, common []string) *sCase {
 				c.ext = append(c.ext, m)
 			}
 		}
+		if r.Chance(1, 3) {
+			emit("  def initialize")
+			emit("  end")
+		}
 		for k := 0; k <= r.Intn(2); k++ {
 			n := fmt.Sprintf("%s_i%d", l, k)
 			def("  ", n)
@@ -195,9 +199,9 @@ func genSuggestUser(r *RNG, common []string) *sCase {
 		for _, m := range chain[i].ext {
 			staticNames = append(staticNames, strings.ToLower(m)+"_m")
 		}
-		if i < ti {
-			hiddenOfOthers = append(hiddenOfOthers, chain[i].priv...)
-		}
+		// the cursor is at the top level: no private method is callable on the
+		// receiver, the receiver's own class's included
+		hiddenOfOthers = append(hiddenOfOthers, chain[i].priv...)
 	}
 	var below []string // methods of subclasses: not answered by the target
 	for i := ti + 1; i < depth; i++ {
@@ -407,7 +411,7 @@ func init() {
 		},
 		Run: func(c *CheckCtx) {
 			c.rule = "the cursor row is the last row and ends in `recv.`; receivers: instances and classes of generated user hierarchies (chains of depth 1-4, included/extended modules, private and protected methods, an unrelated class with public, private and class methods; every name unique), literals and variables of the configured core classes (String - lower and upper case text -, Integer, Float, Array, Hash, Symbol, nil, true), instances and classes of generated configured classes with extends chains. Oracle on the `%method:::detail:::doc` lines: every public method of the class and its ancestors is listed (class methods and `new` for a class receiver); instance receivers also list what Object and Kernel declare; nothing of the unrelated class, of subclasses, no private method of another class, no instance method for a class receiver; for configured receivers nothing outside class chain + Object + Kernel. distinct_nontrivial = distinct programs"
-			c.assumptions = []string{"private/protected methods of the receiver's own class are not judged either way", "Object = class \"\" and Kernel of the configuration in use"}
+			c.assumptions = []string{"protected methods of the receiver's class chain are not judged either way; private ones must not be listed (the cursor is at the top level)", "Object = class \"\" and Kernel of the configuration in use"}
 			r := c.RNG.Sub(23)
 			shipped, err := BuildModel(ShippedConfig())
 			if err != nil {
